@@ -21,6 +21,8 @@ class DGen(Gen):
         self.p_powc2 = p_powc2
         self.p_fixed = p_fixed
         self.names = rng.sample(FREE_NAMES, n_names)
+        # the engine refuses to differentiate any formula containing BelongsTo (even over data only)
+        self.exclude = {'Belongs'}
 
     # ------------------------------------------------------------- leaves
     def beta(self, positive=False):
